@@ -1,6 +1,7 @@
 package main
 
 import (
+	"encoding/json"
 	"flag"
 	"fmt"
 	"os"
@@ -20,6 +21,26 @@ func main() {
 		os.Exit(cmdCheck(os.Args[2:]))
 	case "dump":
 		os.Exit(cmdDump(os.Args[2:]))
+	case "ssa":
+		vc, err := LoadProgram("/repo")
+		if err != nil {
+			fmt.Println(err)
+			os.Exit(2)
+		}
+		var keys []string
+		for k := range vc.funcsByKey {
+			keys = append(keys, k)
+		}
+		sort.Strings(keys)
+		for _, k := range keys {
+			if len(os.Args) > 2 && strings.Contains(k, os.Args[2]) {
+				fmt.Println("=====", k)
+				vc.funcsByKey[k].WriteTo(os.Stdout)
+			}
+		}
+		os.Exit(0)
+	case "replay":
+		os.Exit(cmdReplay(os.Args[2:]))
 	default:
 		fmt.Fprintln(os.Stderr, "unknown command", os.Args[1])
 		os.Exit(2)
@@ -61,7 +82,7 @@ func (vc *VC) selectScripts(prop, only string) *Selected {
 		if con.Extern || !hasProp(con.Props, prop) {
 			continue
 		}
-		if only != "" && !strings.Contains(k, only) {
+		if only != "" && !strings.Contains(k, only) && !strings.Contains(strings.Replace(k, ":", ".", 1), only) {
 			continue
 		}
 		fn := vc.funcsByKey[k]
@@ -80,6 +101,36 @@ func (vc *VC) selectScripts(prop, only string) *Selected {
 			continue
 		}
 		sel.Scripts = append(sel.Scripts, sc)
+		for _, cc := range con.Cases {
+			cname := name + "#" + cc.CaseName
+			sel.Funcs = append(sel.Funcs, cname)
+			csc, err := vc.TranslateFunction(fn, cc)
+			if err != nil {
+				sel.Failures = append(sel.Failures, TransFailure{cname, err.Error()})
+				continue
+			}
+			sel.Scripts = append(sel.Scripts, csc)
+		}
+		// instances of a generic function are proved as well
+		if fn.TypeParams().Len() > 0 && len(fn.TypeArgs()) == 0 {
+			var ikeys []string
+			for ik := range vc.funcsByKey {
+				if strings.HasPrefix(ik, k+"[") {
+					ikeys = append(ikeys, ik)
+				}
+			}
+			sort.Strings(ikeys)
+			for _, ik := range ikeys {
+				iname := strings.Replace(ik, ":", ".", 1)
+				sel.Funcs = append(sel.Funcs, iname)
+				isc, err := vc.TranslateFunction(vc.funcsByKey[ik], con)
+				if err != nil {
+					sel.Failures = append(sel.Failures, TransFailure{iname, err.Error()})
+					continue
+				}
+				sel.Scripts = append(sel.Scripts, isc)
+			}
+		}
 	}
 	for _, lem := range vc.cs.Lemmas {
 		if !hasProp(lem.Props, prop) {
@@ -140,6 +191,7 @@ func cmdCheck(args []string) int {
 	only := fs.String("func", "", "function filter (debug)")
 	verbose := fs.Bool("v", false, "verbose")
 	timeout := fs.Int("timeout", 0, "per-obligation solver timeout (ms)")
+	noEvidence := fs.Bool("noevidence", false, "do not rewrite the evidence file")
 	fs.Parse(args)
 	start := time.Now()
 	vc, err := LoadProgram(*repo)
@@ -164,8 +216,39 @@ func cmdCheck(args []string) int {
 	r := &Runner{vc: vc, TimeoutMs: to, Workers: runtime.NumCPU(), Primary: "z3-new", Fallback: []string{"z3", "cvc5"},
 		Cross: *tier == "thorough", SolverMs: map[string]int64{}, Calls: map[string]int{}}
 	results := r.Run(sel.Scripts)
-	rep := &Report{VC: vc, Prop: *prop, Tier: *tier, Verif: *verif, Sel: sel, Results: results, Runner: r, Start: start, LoadT: loadT, Verbose: *verbose}
+	rep := &Report{VC: vc, Prop: *prop, Tier: *tier, Verif: *verif, Sel: sel, Results: results, Runner: r, Start: start, LoadT: loadT, Verbose: *verbose, NoEvidence: *noEvidence || *only != ""}
 	return rep.Finish()
+}
+
+// cmdReplay re-runs the obligation recorded in a violation file against the
+// current tree: the VC is regenerated, the solver consulted again and the
+// model (if any) replayed on the real code.
+func cmdReplay(args []string) int {
+	fs := flag.NewFlagSet("replay", flag.ExitOnError)
+	repo := fs.String("repo", "/repo", "repository")
+	verif := fs.String("verif", "/verif", "verification directory")
+	prop := fs.String("prop", "", "property id")
+	file := fs.String("file", "", "violation file")
+	fs.Parse(args)
+	data, err := os.ReadFile(*file)
+	if err != nil {
+		fmt.Println(err)
+		return 2
+	}
+	var rec struct {
+		Property  string    `json:"property"`
+		Violation Violation `json:"violation"`
+	}
+	if err := json.Unmarshal(data, &rec); err != nil {
+		fmt.Println(err)
+		return 2
+	}
+	if *prop == "" {
+		*prop = rec.Property
+	}
+	fn := strings.TrimPrefix(strings.TrimPrefix(rec.Violation.Func, "lemma."), "lemma ")
+	fmt.Printf("replaying %s (function filter %q)\n", rec.Violation.Obligation, fn)
+	return cmdCheck([]string{"-repo", *repo, "-verif", *verif, "-prop", *prop, "-func", fn, "-noevidence", "-v"})
 }
 
 func init() {
@@ -173,10 +256,19 @@ func init() {
 		vc, _ := LoadProgram("/repo")
 		vc.cs, _ = LoadContracts("/repo")
 		sel := vc.selectScripts("all", os.Getenv("GOVC_DEBUG_INST"))
+		fmt.Print(Prelude())
+		fmt.Print(vc.globalDecls())
+		structs := map[string][]string{}
+		for name, ss := range vc.structSorts {
+			for _, fl := range ss.Fields {
+				structs[name] = append(structs[name], fl.Name)
+			}
+		}
 		for _, sc := range sel.Scripts {
+			sc.Structs = structs
 			insts := sc.instances()
 			var sb strings.Builder
-			inst := insts[len(insts)/2+7]
+			inst := insts[len(insts)/2]
 			if v := os.Getenv("GOVC_DEBUG_VALS"); v != "" {
 				inst = nil
 				for _, x := range strings.Split(v, ",") {
@@ -185,7 +277,8 @@ func init() {
 					inst = append(inst, n)
 				}
 			}
-			tr := sc.renderInstance(&sb, 0, inst, nil, nil, true, false)
+			fmt.Println("; ======", sc.FuncName)
+			tr := sc.renderInstance(&sb, 0, inst, nil, nil, false, false)
 			fmt.Println(sb.String())
 			fmt.Println("; trivial", tr, "of", len(sc.obligations()))
 		}
